@@ -49,6 +49,7 @@ package shared
 //@   ensures len(s) > 0 ==> 1 <= result1 && result1 <= 4 && result1 <= len(s)
 //@   ensures len(s) > 0 && s[0] < 128 ==> result0 == int32(s[0]) && result1 == 1
 //@   ensures len(s) > 0 && s[0] >= 128 ==> result0 >= 128 && result0 <= 1114111
+//@   ensures result1 > 1 ==> (forall k int :: 0 < k && k < result1 ==> s[k] >= 128)
 
 // utf8.DecodeLastRuneInString: width of the last rune and the ASCII fast path
 //@ func unicode/utf8.DecodeLastRuneInString
